@@ -26,7 +26,11 @@ func (f *syntaxAggregateFunction) retrieve(
 		}
 	}
 
-	filteredValue, err := f.function(result)
+	// The function gets its own slice: result may be the pooled buffer, which is recycled.
+	argument := make([]interface{}, len(result))
+	copy(argument, result)
+
+	filteredValue, err := f.function(argument)
 	if err != nil {
 		return ErrorFunctionFailed{
 			errorBasicRuntime: f.errorRuntime,
